@@ -115,7 +115,7 @@ def C01(ctx):
 
 
 def C02(ctx):
-    std_check(ctx, [dict(harness="c02", aliases=["c02_history"], cases=(180, 12000), max_ops=12)])
+    std_check(ctx, [dict(harness="c02", aliases=["c02_history"], cases=(450, 12000), max_ops=12)])
 
 
 def C03(ctx):
